@@ -13,20 +13,20 @@ CHECKS = {
    text="Seeded exploration of API programs (fault-free single-task arm of the simulator) against an executable reference model; every result, error and post-commit dump compared. Evidence, not proof: programs are sampled.",
    tech="deterministic simulation (fault-free arm): seeded API programs vs reference model, shrinking + exact replay"),
  "C05": dict(engine="modelsim", cat="exploration", ref="DESIGN.md §6 C05",
-   text="Seeded exploration of cursor call sequences inside dirty write transactions against a model cursor, with a real-time watchdog for calls that never return.",
+   text="Seeded exploration of cursor call sequences inside dirty write transactions against a model cursor, with a real-time watchdog for calls that never return. One run in 64 puts more than 65536 uncommitted keys into one leaf and navigates it; cursors are also kept across a mutation of their key and repositioned with Seek.",
    tech="deterministic simulation (fault-free arm): seeded cursor programs vs model cursor, hang watchdog"),
  "C07": dict(engine="modelsim", cat="exploration", ref="DESIGN.md §6 C07",
    text="After every commit and reopen of seeded histories the file is decoded by an independent reader and every page classified; compared with Tx.Check, Stats and Tx.Page.",
    tech="deterministic simulation: seeded histories, independent page accounting after every commit"),
  "C12": dict(engine="modelsim", cat="exploration", ref="DESIGN.md §6 C12",
-   text="Differential check of every file written in seeded histories against an independent implementation of the published v2 layout, plus a golden corpus.",
+   text="Differential check of every file written in seeded histories against an independent implementation of the published v2 layout, plus a golden corpus. Every third run lays the content out with an independent encoder (layouts the current writer never produces) and the real code must read and continue it; one run in 96 writes and re-reads a free list of more than 65535 entries in-system.",
    tech="deterministic simulation: seeded histories decoded by an independent v2 reader"),
 
  "C01": dict(engine="crashsim", cat="fault_enumeration", ref="DESIGN.md §6 C01",
-   text="Crash points are enumerated per recorded history (after every I/O call and inside writes) and crossed with persisted subsets of the unsynced units (complete for small windows, structured samples otherwise); each crash image is judged by the independent decoder and by real recovery plus a follow-up commit. Histories are sampled.",
+   text="Crash points are enumerated per recorded history (after every I/O call and inside writes) and crossed with persisted subsets of the unsynced units (complete for small windows, structured samples otherwise); each crash image is judged by the independent decoder and by real recovery plus a follow-up commit. Histories are sampled. Round 3: histories with a multi-page free list, histories ending in a commit with a failing sync (an acknowledged commit must survive), commit failures in the middle of a history, read-only inspection of crash images before recovery, the end of the history as a crash point.",
    tech="deterministic simulation with fault injection: shadow-disk crash-state enumeration (crash point x persisted subset), decoder + real recovery oracle"),
  "C06": dict(engine="crashsim", cat="exploration", ref="DESIGN.md §6 C06",
-   text="Invariant monitored on every pwrite of every seeded history: the written page range must not intersect the page sets of the newest committed version, of any open reader's version, or the newest meta slot.",
+   text="Invariant monitored on every pwrite of every seeded history: the written page range must not intersect the page sets of the newest committed version, of any open reader's version, or the newest meta slot. A sixth of the sequential histories contain a commit failure (data write, data sync, torn meta write) whose aftermath the monitor judges.",
    tech="deterministic simulation: I/O interposition monitor over seeded histories with held readers"),
  "C08": dict(engine="faultsim", cat="fault_enumeration", ref="DESIGN.md §6 C08",
    text="For a chosen commit of each seeded history every I/O call it issues is made to fail once (all positions and kinds in thorough, a sample incl. meta write and final sync in quick), with and without readers held across the failure; afterwards in-process state, readers, accounting, the next writer and the reopened state are checked. Every third run is the concurrent arm: writer and reader tasks under the token scheduler while I/O faults hit whichever commits are running (readers that begin or dump during the failing commit keep their snapshot, waiting writers proceed, clean reopen shows the newest acknowledged version). Histories are sampled.",
@@ -38,22 +38,22 @@ CHECKS = {
    text="Seeded exploration of reader/writer interleavings under a token scheduler (every scheduling decision from the tape, exact replay): readers of different ages dump their whole view in chunks while writers commit, roll back, reuse pages, grow and remap; each dump is compared with the model version of the reader's txid.",
    tech="deterministic simulation: seeded token scheduler over lock-probe/yield/I/O hooks in a synctest bubble, versioned reference model"),
  "C03": dict(engine="schedsim", cat="exploration", ref="DESIGN.md §6 C03",
-   text="Seeded exploration of multi-writer/reader/Stats/Close interleavings: one-writer monitor, consecutive ids, serial replay of every writer's reads against the model in id order, invisibility of failed bodies, porcupine linearizability of the txid history, deadlock detection, Close semantics. Race freedom is not decided by this arm.",
+   text="Seeded exploration of multi-writer/reader/Stats/Close interleavings: one-writer monitor, consecutive ids, serial replay of every writer's reads against the model in id order, invisibility of failed bodies, porcupine linearizability of the txid history, deadlock detection, Close semantics. Race freedom is not decided by this arm. Every fourth run is the Batch arm: DB.Batch callers under the scheduler and fake clock with a task closing the database while calls are queued; every call must return. The free-running -race arm also runs WriteTo, Sync, Stats and accessors.",
    tech="deterministic simulation: seeded token scheduler, serial-replay oracle + porcupine linearizability of the recorded history"),
  "C10": dict(engine="reclaimsim", cat="exploration", ref="DESIGN.md §6 C10",
-   text="Seeded overwrite workloads with reader open/close patterns between write transactions; the pending-page count after reader-free commits is bounded by what the independent decoder says the commit released, pages of open readers' versions are never written, and steady workloads stay within a copy-on-write growth bound.",
+   text="Seeded overwrite workloads with reader open/close patterns between write transactions; the pending-page count after reader-free commits is bounded by what the independent decoder says the commit released, pages of open readers' versions are never written, and steady workloads stay within a copy-on-write growth bound. Round 3: physically rolled-back transactions (panic, injected I/O failure, size-limit failure in spill) with a space-conservation rule, NoStatistics runs, and a statistics-free tail oracle on the high-water mark.",
    tech="deterministic simulation: seeded reader open/close patterns over overwrite workloads, decoder-derived reclamation bounds, pwrite monitor"),
  "C14": dict(engine="schedsim", cat="exploration", ref="DESIGN.md §6 C14",
-   text="Seeded multi-task runs in which backup tasks copy a read transaction (WriteTo into a writer that yields on every Write, CopyFile, WriteFlag) while writer tasks keep committing; the copy must have Tx.Size() bytes, decode cleanly to the snapshot's model version, open, dump equal and pass Tx.Check.",
+   text="Seeded multi-task runs in which backup tasks copy a read transaction (WriteTo into a writer that yields on every Write, CopyFile, WriteFlag) while writer tasks keep committing; the copy must have Tx.Size() bytes, decode cleanly to the snapshot's model version, open, dump equal and pass Tx.Check. Destinations that fail part-way (failing writer, /dev/full) must make the copy return an error.",
    tech="deterministic simulation: token scheduler, harness io.Writer as a scheduling seam during WriteTo"),
  "C16": dict(engine="batchsim", cat="exploration", ref="DESIGN.md §6 C16",
    text="Seeded runs of concurrent Batch callers under the token scheduler and fake clock (batch timers fire only when the scheduler advances time), with per-call failure plans; exactly-once tokens and read-modify-write counters per nil return, own error/panic per failure, every call returns. In a third of the runs I/O faults make batch commits fail: every caller of that batch must be told and none of its effects committed.",
    tech="deterministic simulation: token scheduler + synctest fake clock over DB.Batch, exactly-once token/counter oracle"),
  "C17": dict(engine="locksim", cat="exploration", ref="DESIGN.md §6 C17",
-   text="Seeded open/close schedules of read-write and read-only handles on one path under the token scheduler and fake clock against a lock model; seeded API programs and the CLI inspection commands against a read-only handle with every I/O call observed and the file hash compared; writes into returned memory must fault or leave content unchanged.",
+   text="Seeded open/close schedules of read-write and read-only handles on one path under the token scheduler and fake clock against a lock model; seeded API programs and the CLI inspection commands against a read-only handle with every I/O call observed and the file hash compared; writes into returned memory must fault or leave content unchanged. Round 3: openers racing to create the file with a per-holder counter that must not lose increments; the fault-or-copy probe also on read transactions of read-write handles.",
    tech="deterministic simulation: token scheduler + fake clock over flock retry/timeout, I/O interposition on a read-only handle, fault-or-copy probe"),
  "C09": dict(engine="flspec", cat="exploration", ref="DESIGN.md §6 C09",
-   text="Seeded sequences of allocator operations, structured as the database issues them, run on both freelist backends against a shadow specification written from the property; serialisation checked by the published page layout incl. the >65534-entry encoding. The allocator has no I/O/clock/schedule: plain seeded model-based testing, said plainly.",
+   text="Seeded sequences of allocator operations, structured as the database issues them, run on both freelist backends against a shadow specification written from the property; serialisation checked by the published page layout incl. the >65534-entry encoding. The allocator has no I/O/clock/schedule: plain seeded model-based testing, said plainly. The count-overflow scenario writes 65533..65536 and more entries (the boundary itself), also in quick.",
    tech="seeded model-based testing of the freelist backends against a shadow specification (fault-free arm; no simulator dimension in this component)"),
  "C11": dict(engine="corruptsim", cat="fault_enumeration", ref="DESIGN.md §6 C11",
    text="Stored-byte fault injection on files at rest: every byte of each 64-byte meta record x replacement values (all 255 in thorough, boundary + sampled values in quick), every prefix of a would-be newer meta, both-damaged pairs, truncations, junk; expected Open result derived from the independent decoder and the model version table. Files are sampled; a quarter of them are hot backups (Tx.WriteTo), and every source must have two valid meta pages before anything is damaged.",
@@ -62,13 +62,13 @@ CHECKS = {
    text="One seeded history executed under three option schedules (option assignment per Open, incl. flipping freelist-sync/backend at every reopen, different page sizes, read-only passes); every result compared with the model in each execution; rebuilt free list compared with the persisted one on the same file.",
    tech="deterministic simulation (fault-free arm): option-schedule differential execution against the reference model and decoder"),
  "C15": dict(engine="compactsim", cat="exploration", ref="DESIGN.md §6 C15",
-   text="Seeded source populations compacted (library and CLI) under a range of transaction-size limits; destination decoded, dumped, checked; source hash compared. No fault/schedule dimension: fault-free arm, said plainly.",
+   text="Seeded source populations compacted (library and CLI) under a range of transaction-size limits; destination decoded, dumped, checked; source hash compared. No fault/schedule dimension: fault-free arm, said plainly. A quarter of the sources are foreign layouts; bucket names that equal joined nested paths.",
    tech="seeded model-based testing over simulated histories as source population (fault-free arm)"),
  "C19": dict(engine="corruptsim", cat="fault_enumeration", ref="DESIGN.md §6 C19",
-   text="Sweep of single structural corruptions of the listed classes over eligible pages/elements of consistent files from seeded histories; the independent decoder referees which classes are present; Tx.Check and `bbolt check` must report exactly then. Files are sampled; the sweep per file is capped.",
+   text="Sweep of single structural corruptions of the listed classes over eligible pages/elements of consistent files from seeded histories; the independent decoder referees which classes are present; Tx.Check and `bbolt check` must report exactly then. Files are sampled; the sweep per file is capped. A quarter of the files are foreign layouts; bucket headers redirected to another bucket's root (referenced twice through a header).",
    tech="structural fault injection on files at rest, independent decoder as referee, library + CLI"),
  "C20": dict(engine="repairsim", cat="exploration", ref="DESIGN.md §6 C20",
-   text="Repair commands run from the CLI package on files from seeded histories; outputs decoded and opened, free == unreachable, revert output equals the previous model version, sources byte-identical.",
+   text="Repair commands run from the CLI package on files from seeded histories; outputs decoded and opened, free == unreachable, revert output equals the previous model version, sources byte-identical. One run in 46 uses a file of more than 16 MiB whose meta pages disagree about the high-water mark.",
    tech="seeded histories + CLI surgery commands judged by the independent decoder and the model version table (fault-free arm)"),
 }
 
